@@ -9,11 +9,12 @@ mod drive;
 mod script;
 
 use std::cell::RefCell;
+use std::collections::{HashMap, HashSet};
 
 use vcommon::{Args, Reporter, Rng, Tier, Value, catch, hash_of, json};
 
 use crate::c11::{Entry, Inner, catalogue};
-use crate::drive::Case;
+use crate::drive::{Case, Out};
 use crate::script::{Ev, items_of, pend_between_items, pends_of};
 
 // ---------------------------------------------------------------------------------------------
@@ -138,6 +139,121 @@ thread_local! {
 
 const DISTINCT_CAP: usize = 3_000_000;
 
+thread_local! {
+    /// (family, failure kind) pairs seen so far in this process.
+    static SEEN: RefCell<HashSet<(String, String)>> = RefCell::new(HashSet::new());
+    /// cache of blame probes: does base family F fail with kind K on the small probe space?
+    static BLAME: RefCell<HashMap<(String, String), bool>> = RefCell::new(HashMap::new());
+    static COUNTS: RefCell<HashMap<&'static str, u64>> = RefCell::new(HashMap::new());
+}
+
+/// Run one case, buffered. Panics of the code under test become findings.
+fn run_buffered(e: &Entry, c: &Case) -> Out {
+    let mut out = Out::default();
+    if let Err(msg) = catch(|| (e.run)(c, &mut out)) {
+        out.eval();
+        let kind = if msg.starts_with("harness:") { "harness-panic" } else { "panic" };
+        out.violation(&format!("C11|{}|{kind}", c.fam), &format!("panicked: {msg}"), c.to_json());
+    }
+    out
+}
+
+/// The base families a composition is built from, outermost first.
+fn components(name: &str) -> Vec<&'static str> {
+    const OPS: &[(&str, &str)] = &[
+        ("fm_async", "filter_map_async"), ("fm_stream", "flat_map_stream"), ("filter_map", "filter_map"), ("flat_map", "flat_map"),
+        ("skip_while", "skip_while"), ("take_while", "take_while"), ("zip_longest", "zip_longest"), ("cross_singleton", "cross_singleton"),
+        ("enumerate", "enumerate"), ("flatten", "flatten"), ("filter", "filter"), ("chain", "chain"), ("stream", "stream"), ("repeat", "once/empty/repeat"),
+        ("skip", "skip"), ("take", "take"), ("fuse", "fuse"), ("map", "map"), ("zip", "zip"),
+    ];
+    let mut found: Vec<(usize, &'static str)> = vec![];
+    let mut masked: Vec<u8> = name.bytes().collect();
+    for (tok, base) in OPS {
+        // longest tokens first (the table is ordered so that prefixes come later); mask what was matched
+        loop {
+            let hay = String::from_utf8_lossy(&masked).to_string();
+            match hay.find(tok) {
+                Some(pos) => {
+                    found.push((pos, base));
+                    for b in &mut masked[pos..pos + tok.len()] {
+                        *b = b'#';
+                    }
+                }
+                None => break,
+            }
+        }
+    }
+    found.sort();
+    found.into_iter().map(|(_, b)| b).collect()
+}
+
+/// Does base family `base` show failure `kind` on its own (earlier in this run, or on a small probe
+/// space: all scripts of length <= 2 with <= 1 Pending, every parameter and inner placement)?
+fn base_fails(cat: &[Entry], base: &str, kind: &str) -> bool {
+    let key = (base.to_string(), kind.to_string());
+    if SEEN.with(|s| s.borrow().contains(&key)) {
+        return true;
+    }
+    if let Some(b) = BLAME.with(|b| b.borrow().get(&key).copied()) {
+        return b;
+    }
+    let Some(e) = cat.iter().find(|e| e.name == base) else { return false };
+    let scripts = all_scripts(2, 1);
+    let empty: &[Ev] = &[];
+    let rights: Vec<&[Ev]> = if e.arity == 2 { scripts.iter().map(|s| s.as_slice()).collect() } else { vec![empty] };
+    let mut hit = false;
+    'outer: for l in &scripts {
+        for r in &rights {
+            for &p1 in e.p1 {
+                let probe = Case { fam: e.name, scripts: [l, r], kinds: e.kinds[0], p1, p2: 0, inner: &[], mode: 0 };
+                let scheds: Vec<Vec<u32>> = if e.inner == Inner::Sched { placements((e.m)(&probe), 1).iter().map(|c| sched_from_counts(c)).collect() } else { vec![vec![]] };
+                for inner in &scheds {
+                    for &kinds in e.kinds {
+                        let c = Case { inner, kinds, ..probe };
+                        if !kinds_ok(kinds, &c, e.arity) {
+                            continue;
+                        }
+                        let out = run_buffered(e, &c);
+                        if out.findings.iter().any(|f| f.sig.rsplit('|').next() == Some(kind)) {
+                            hit = true;
+                            break 'outer;
+                        }
+                    }
+                }
+            }
+        }
+    }
+    BLAME.with(|b| b.borrow_mut().insert(key, hit));
+    hit
+}
+
+/// Hand the buffered result to the reporter. A failure of a *composition* whose kind is also shown by
+/// one of its components on its own is attributed to that component (`C11|<component>|<kind>|composed`),
+/// so that one root cause has one signature; otherwise the composition's own name is the site.
+fn flush(cat: &[Entry], e: &Entry, out: Out, rep: &mut Reporter) {
+    rep.evals(out.evals);
+    if !out.counts.is_empty() {
+        COUNTS.with(|m| {
+            let mut m = m.borrow_mut();
+            for n in out.counts {
+                *m.entry(n).or_insert(0) += 1;
+            }
+        });
+    }
+    for f in out.findings {
+        let kind = f.sig.rsplit('|').next().unwrap_or("").to_string();
+        let mut sig = f.sig.clone();
+        if e.composition {
+            if let Some(base) = components(e.name).into_iter().find(|b| base_fails(cat, b, &kind)) {
+                sig = format!("C11|{base}|{kind}|composed");
+            }
+        } else {
+            SEEN.with(|s| s.borrow_mut().insert((e.name.to_string(), kind)));
+        }
+        rep.violation(&sig, &f.what, f.case);
+    }
+}
+
 fn exec(cat: &[Entry], ei: usize, c: &Case, rep: &mut Reporter) {
     let e = &cat[ei];
     debug_assert_eq!(e.name, c.fam);
@@ -155,12 +271,11 @@ fn exec(cat: &[Entry], ei: usize, c: &Case, rep: &mut Reporter) {
         }
         rep.sample(|| c.to_json());
     }
-    if let Err(msg) = catch(|| (e.run)(c, rep)) {
+    let out = run_buffered(e, c);
+    if out.findings.iter().any(|f| f.sig.ends_with("panic")) {
         STATS.with(|s| s.borrow_mut()[ei].panics += 1);
-        rep.eval();
-        let kind = if msg.starts_with("harness:") { "harness-panic" } else { "panic" };
-        rep.violation(&format!("C11|{}|{kind}", c.fam), &format!("panicked: {msg}"), c.to_json());
     }
+    flush(cat, e, out, rep);
 }
 
 fn kinds_ok(k: [u8; 2], c: &Case, arity: u8) -> bool {
@@ -310,6 +425,11 @@ fn run_c11(args: &Args) {
             thin.push(e.name);
         }
     }
+    COUNTS.with(|m| {
+        for (k, v) in m.borrow().iter() {
+            rep.count_n(k, *v);
+        }
+    });
     rep.extra("per_family", Value::Object(per_family));
     rep.extra("catalogue_size", json!(cat.len()));
     rep.extra("nontrivial_runs_total", json!(total_nontrivial));
